@@ -101,7 +101,18 @@ def run(ctx):
         for kind in ("plaquette", "vertex"):
             if kind == "plaquette":
                 n = F
-                adj = [[(int(q), int(e)) for q, e in zip(*gu.adjacent_plaquettes(l, p))] for p in range(n)]
+                # independent adjacency from the edge table (for the oracle); koala's own provider gives the neighbour order the search uses (for the model)
+                tab = l.edges.adjacent_plaquettes
+                adj_ref = [[(int(q), int(e)) for e in l.plaquettes[p].edges for q in tab[e] if int(q) != p and int(q) != INVALID] for p in range(n)]
+                try:
+                    adj = [[(int(q), int(e)) for q, e in zip(*gu.adjacent_plaquettes(l, p))] for p in range(n)]
+                    provider_ok = all(sorted(x) == sorted(y) for x, y in zip(adj, adj_ref))
+                except Exception as ex:
+                    adj, provider_ok = adj_ref, False
+                    ctx.count("adjacency_provider_raised")
+                if not provider_ok:
+                    ctx.count("adjacency_provider_differs_from_edge_table")
+                    adj = adj_ref
                 centres = np.array([p.center for p in l.plaquettes])
                 pos = lambda i: centres[i]
                 finder = pf.path_between_plaquettes
@@ -156,6 +167,9 @@ def run(ctx):
                     ctx.count("cost_law_pos_not_met_nongeneric_geometry")
                 else:
                     ctx.count("cost_law_pos_monitored_ok")
+                if kind == "plaquette" and not provider_ok:
+                    ctx.corr_break(f"{name}: graph_utils.adjacent_plaquettes raises or differs from the edge table; paths are judged against the edge table", dict(case=name, lattice=zoo.lat_to_json(l)))
+                    continue
                 if n <= 130 and queries:
                     H = [[fbits(metric(pos(i), pos(j))) for j in range(n)] for i in range(n)]
                     reqs.append(dict(op="astar", adj=[[[q, e] for q, e in row] for row in adj], h=H,
@@ -166,6 +180,20 @@ def run(ctx):
     pts = rng.integers(0, G, size=(60 if quick else 600, 2, 2))
     special = [[[0, 0], [0, 0]], [[G // 10, G // 10], [9 * G // 10, 2 * G // 10]], [[0, 5], [G - 1, 5]], [[G // 2, 0], [0, 0]], [[3, 3], [3 + G // 2, 3]], [[7, 9], [7, 9]]]
     allp = np.concatenate([np.array(special), pts])
+    # distinct points that nearly coincide - directly or across the seam - at every scale down to one ulp: 'zero only for coincident points'
+    for k in range(1, 53, 2 if quick else 1):
+        d = 2.0 ** -k
+        for base in ((0.3, 0.7), (0.0, 0.5), (1 - 2.0 ** -53, 0.25)):
+            for delta in ((d, 0.0), (0.0, d), (d, d), (-d, d)):
+                a = np.array(base); b = (a + np.array(delta)) % 1
+                name = f"metric-near({a.tolist()},{b.tolist()})"
+                if np.all(a == b):
+                    continue
+                dp, dq, de = pf.periodic_straight_line_length(a, b), pf.periodic_straight_line_length(b, a), pf.straight_line_length(a, b)
+                if not (dp > 0 and dq > 0 and de > 0 and dp == dq and dp <= de * (1 + 1e-15)):
+                    ctx.impl_violation(f"{name}: distinct points {2.0 ** -k:.1e} apart get periodic distance {dp}/{dq}, Euclidean {de}: zero only for coincident points / symmetric / "
+                                       "not longer than Euclidean fails", dict(case=name, a=a.tolist(), b=b.tolist()))
+                ctx.case((name,), nontrivial=True)
     for pq in allp:
         a, b = pq[0] / G, pq[1] / G
         name = f"metric({a.tolist()},{b.tolist()})"
@@ -201,6 +229,41 @@ def run(ctx):
                 brk(f"the model's path {a}->{b} fails the validity test"); break
         else:
             ctx.count("paths_reproduced_exactly_by_model", len(queries))
+    if ctx.corr_breaks and not ctx.violations:
+        # the search no longer behaves like the model: look for a pair on which the statement itself fails (all ordered pairs, no early stopping, vs Dijkstra)
+        import time as _t
+        t0 = _t.time(); tried = 0
+        srng = np.random.default_rng(ctx.seed + 1)
+        while _t.time() - t0 < (90 if quick else 600) and not ctx.violations:
+            l = zoo.rebuild(zoo.voronoi(srng, int(srng.integers(8, 40))))
+            try:
+                F = l.n_plaquettes
+                if F < 2 or not plaquette_graph_connected(l):
+                    continue
+                tab = l.edges.adjacent_plaquettes
+                adj = [[(int(q), int(e)) for e in l.plaquettes[p].edges for q in tab[e] if int(q) != p and int(q) != INVALID] for p in range(F)]
+                centres = np.array([p.center for p in l.plaquettes])
+            except Exception:
+                continue
+            for mname, metric in (("euclid", pf.straight_line_length), ("periodic", pf.periodic_straight_line_length)):
+                for a in range(F):
+                    for b in range(F):
+                        if a == b:
+                            continue
+                        tag = f"search:vor(V={l.n_vertices}):{mname}:{a}->{b}"
+                        rep = lambda what, **kw: ctx.impl_violation(f"{tag}: {what}", dict(case=tag, lattice=zoo.lat_to_json(l), kind="plaquette", metric=mname, start=a, goal=b, early=False, **kw))
+                        try:
+                            nodes, edges = pf.path_between_plaquettes(l, a, b, heuristic=metric, early_stopping=False, maxits=l.n_edges)
+                        except Exception as ex:
+                            rep(f"raised {type(ex).__name__}: {ex} with maxits = n_edges"); break
+                        tried += 1
+                        if not check_path(ctx, l, "plaquette", adj, lambda i: centres[i], metric, a, b, False, nodes, edges, rep):
+                            break
+                    if ctx.violations:
+                        break
+                if ctx.violations:
+                    break
+        ctx.count("widened_search_pairs", tried)
     ctx.assumptions += ["path_valid is proved for every cost type obeying CostLaws (< a strict order, c < c + h(a,b)); for IEEE doubles these are assumptions about the hardware "
                         "arithmetic, the positivity part is monitored on every lattice (counter cost_law_pos_*); the model's returned path is additionally checked by the executable "
                         "validity test that is proved sound",
